@@ -222,6 +222,27 @@ theorem C04_three_valued :
   generalize Opnd.eval r a = v
   cases v <;> simp [Opnd.eval]
 
+/-- **NULL-safe equality** (`EQUAL_NULL(a, b)`, `a IS NOT DISTINCT FROM b`; `IS DISTINCT FROM` is its negation) is two-valued on
+    every row: TRUE when both sides are NULL or equal non-NULLs, FALSE otherwise — in particular FALSE, not UNKNOWN, when exactly
+    one side is NULL, so `NOT EQUAL_NULL(col, x)` is TRUE on the rows where `col` is NULL and UPDATE/DELETE must affect them. -/
+theorem C04_equal_null (a b : Opnd) (r : Row) :
+    (Pred.eqNull a b).eval r ≠ .u ∧
+    ((Pred.eqNull a b).eval r = .t ↔ a.eval r = b.eval r) ∧
+    ((Pred.not (Pred.eqNull a b)).eval r = .t ↔ a.eval r ≠ b.eval r) ∧
+    (Pred.eqNull a b).eval r = (Pred.eqNull b a).eval r := by
+  simp only [Pred.eval]
+  cases ha : Opnd.eval r a <;> cases hb : Opnd.eval r b <;> simp [Tri.ofBool, Tri.not]
+  · rename_i x y; by_cases h : x = y <;> simp [h, Tri.not, eq_comm]
+
+/-- known finding `C04/duckdb-contradictory-range-filter` (an engine defect the fake inherits): on the table below
+    `DELETE … WHERE C0 = -1 AND C0 > C1 AND 0 <= C1` must delete nothing — the predicate is TRUE on no row — while DuckDB 1.0.0
+    deletes the row (2, 0) and reports 1. -/
+theorem finding_C04_duckdb_contradictory_range_filter :
+    let p : Pred := .and (.and (.cmp (.col 0) .eq (.lit (some (-1)))) (.cmp (.col 0) .gt (.col 1))) (.cmp (.lit (some 0)) .le (.col 1))
+    let rows : List Row := [[some 0, some (-2)], [none, none], [some (-1), some 3], [some 1, some 1], [some 2, some 0], [some (-2), some 2]]
+    rows.countP (fun r => p.eval r = .t) = 0 ∧
+    (Impl.step [⟨2, rows⟩] (.delete 0 (some p))).map (fun r => r.2.rowcount) = .ok 0 := by decide
+
 /-! ### execute_string, nop_regexes -/
 
 /-- **`execute_string` = one cursor per statement**: when every statement of the script is accepted, the i-th
